@@ -231,6 +231,11 @@ def float_monitors(chk, tier):
             with contextlib.redirect_stdout(io.StringIO()):
                 Hm = rs.randn(n, n) * 0.03
                 Hm = Hm + Hm.T
+                if k % 5 == 3:
+                    # a complex Hermitian Hamiltonian (couplings with a phase)
+                    Bm = rs.randn(n, n) * 0.02
+                    Hm = Hm + 1j * (Bm - Bm.T)
+                    c["complex_hamiltonian"] = True
                 ops, rates = [], []
                 for m in range(int(rs.randint(1, 4))):
                     Kop = np.zeros((n, n))
